@@ -5,7 +5,7 @@ import os
 from lib import bridge, gen, mon, refcell as rc, tlbref as T, tlbspec as S
 from checks import c15_messages as c15
 
-SHARDS = 8
+SHARDS = 16
 SHARD_TIMEOUT = 3600
 SENT_BITS = '1011'
 
@@ -237,7 +237,7 @@ def run(R):
     inv = bridge.CellInvariant(R).install()
     try:
         ctors = S.all_ctors()
-        per = 25 if quick else 300
+        per = 25 if quick else 3000
         for ci, (name, cname) in enumerate(ctors):
             if R.nshards > 1 and ci % R.nshards != R.shard:
                 continue
@@ -442,7 +442,7 @@ def custom_block_types(R, L, mods, rng, quick, g):
     blk = mods['block']
     # ---- BlockInfo: every combination of the four structure-deciding flags
     combos = [(nm, am, vi, fl) for nm in (0, 1) for am in (0, 1) for vi in (0, 1) for fl in (0, 1)]
-    for rep in range(1 if quick else 20):
+    for rep in range(1 if quick else 150):
         for (nm, am, vi, fl) in combos:
             ext = lambda: g.value(S.t('ExtBlkRef'))
             b = {'version': g.uint(32), 'not_master': nm, 'after_merge': am, 'before_split': rng.getrandbits(1), 'after_split': rng.getrandbits(1), 'want_split': rng.random() < 0.5,
@@ -491,7 +491,7 @@ def custom_block_types(R, L, mods, rng, quick, g):
             for path, kind, msg, where in C.diffs[:3]:
                 R.violation(f'field-differs-{where if where[0] != "?" else "BlockInfo" + where[1:]}-{kind}', f'BlockInfo: field {path}: {msg}', W)
     # ---- McStateExtra: the fields behind the HashmapAugE of old blocks
-    for rep in range(6 if quick else 200):
+    for rep in range(6 if quick else 1500):
         flags = rng.choice([0, 1])
         nblocks = rng.choice([0, 1, 3])
         old = {rng.getrandbits(32): {'_': 'key_ext_blk_ref', 'key': rng.random() < 0.5, 'blk_ref': g.value(S.t('ExtBlkRef'))} for _ in range(nblocks)}
